@@ -71,7 +71,7 @@ func (r *c30Run) Setup(s *sim.Sim) {
 	n := 3 + p.Intn(6)
 	for i := 0; i < n; i++ {
 		if p.Intn(4) == 0 {
-			r.Probes = append(r.Probes, c30Probe{Kind: "raw", Pair: all[1+p.Intn(len(all)-1)], Raw: sim.Pick(p, "policy-with-mode-none", "mode-invalid", "unknown-policy", "mode-mismatch")})
+			r.Probes = append(r.Probes, c30Probe{Kind: "raw", Pair: all[1+p.Intn(len(all)-1)], Raw: sim.Pick(p, "policy-with-mode-none", "mode-invalid", "unknown-policy", "mode-mismatch", "renew-switches-pair", "renew-switches-pair")})
 		} else {
 			r.Probes = append(r.Probes, c30Probe{Kind: "pair", Pair: all[p.Intn(len(all))]})
 		}
@@ -164,6 +164,45 @@ func (r *c30Run) Main(s *sim.Sim) {
 				s.Probe("disabled-pair-refused")
 				s.Nontrivial()
 			}
+			continue
+		}
+		if pb.Raw == "renew-switches-pair" {
+			// a channel opened with an enabled pair is "renewed" with a pair that is not enabled
+			from := r.Enabled[(pb.Pair.Mode+len(pb.Pair.Policy))%len(r.Enabled)]
+			to := pb.Pair
+			if r.enabled(to) || to == from {
+				s.Probe("raw-renew-switches-pair-skipped")
+				continue
+			}
+			fsec := secCfg{Policy: from.Policy, Mode: from.Mode, ClientBits: 2048, ServerBits: 2048}
+			cl, err := dialRawClient(s, srvAddr, refcodec.Hello{RecvBuf: 65535, SendBuf: 65535, Endpoint: srvURL}, &fsec)
+			if err != nil {
+				s.Fail("HARNESS", "setup", "rawclient", "%v", err)
+				return
+			}
+			if err := cl.Open(60000, false); err != nil {
+				cl.Close()
+				s.Fail("C30", "enabled-pair-refused", from.Policy, "probe %d: a reference client could not open a channel with the enabled pair %s/%d: %v", i, from.Policy, from.Mode, err)
+				return
+			}
+			tsec := secCfg{Policy: to.Policy, Mode: to.Mode, ClientBits: 2048, ServerBits: 2048}
+			cl.sec, cl.pol = &tsec, nil
+			if to.Policy != "None" {
+				cl.pol = refcodec.Policies[to.Policy]
+			}
+			rerr := cl.Open(60000, true)
+			var svc any
+			if rerr == nil {
+				// the switched channel even serves requests
+				svc, _ = cl.Request(&ua.GetEndpointsRequest{EndpointURL: srvURL}, 3*time.Second)
+			}
+			cl.Close()
+			if rerr == nil {
+				s.Fail("C30", "disabled-pair-accepted", "raw-renew-switches-pair", "probe %d: a channel opened with %s/%d was renewed with %s/%d, which the server does not enable (%v), and the server answered Good (request over the switched channel answered with %T)", i, from.Policy, from.Mode, to.Policy, to.Mode, r.Enabled, svc)
+				return
+			}
+			s.Probe("raw-renew-switches-pair-refused")
+			s.Nontrivial()
 			continue
 		}
 		// raw OPN requests no real client would send
